@@ -1,7 +1,425 @@
-import RbdlProofs.Lemmas.Rot
-/- C19 — property theorems (being filled in) -/
+import RbdlProofs.Lemmas.L19Names
+import RbdlProofs.Lemmas.L19Parent
+import RbdlProofs.Lemmas.L19Joint
+import RbdlProofs.Lemmas.L19Gravity
+import RbdlProofs.Lemmas.L19CS
+import RbdlProofs.Lemmas.L19Ex
+/-
+  C19 — loading a model and its constraint sets from a Lua description yields the mechanism of
+  the equivalent construction calls; the result depends on the description only.
+
+  The loader model is `Rbdl.LuaLoad` (lean/Rbdl/LuaLoad.lean): `load` is code-shaped after
+  `LuaModelReadFromTable`, `apiCalls` is the translation description → construction calls (ids
+  predicted by counting, no model involved), `loadSet` follows
+  `LuaModelReadConstraintsFromTable`.  Lemmas: RbdlProofs/Lemmas/L19*.lean.  Every theorem with
+  hypotheses is followed by an `example` on the description `L19.Ex.leg` over `Rat`.
+-/
 namespace Rbdl.C19
-open Lean.Grind Rbdl
-variable {α : Type} [CommRing α]
-theorem placeholder_rot_one : (M3.one : M3 α).IsRot := M3.isRot_one
+open Lean.Grind Rbdl Rbdl.ModelS Rbdl.LuaLoad Rbdl.L19
+
+section
+variable {α : Type} [Field α] [DecidableEq α]
+
+/-! ### 1. the loader is "issue these construction calls" -/
+
+/-- 1. For every description — well-formed or not — the loader leaves the model and reports the
+    outcome of issuing the translated calls `apiCalls d` in order on a fresh `Model` (an
+    exception of the library ends the sequence; a malformed entry raises its error after the
+    calls before it). -/
+theorem load_eq_api (d : Desc α) : solo d = apiOutcome d := by
+  have h := (loadFrames_eq d.frames _ TState.init (agree_init d.gravity)).1
+  simp only [solo, load, loadInto, apiOutcome, apiCalls, parseErr, runApi_append_gravity]
+  exact h
+
+/-- 1'. On success the ids the library returned, frame by frame, are the ids the translator
+    predicted by counting. -/
+theorem load_ids (d : Desc α) (h : (load d).2 = .ok ()) : (load d).1.ids = frameIds d := by
+  have h2 := (loadFrames_eq d.frames _ TState.init (agree_init d.gravity)).2 h
+  simpa [load, loadInto, frameIds] using h2
+
+example : (load Ex.leg).1.ids = frameIds Ex.leg := load_ids Ex.leg Ex.leg_ok
+example : (apiCalls Ex.leg).length = 7 ∧ frameIds Ex.leg = [2, 3, fixedDisc, 6, 7, 8] := by
+  decide +kernel
+/-- a rejected call (duplicate name): the calls before it have taken effect, on both sides -/
+example : (solo Ex.dupName).2 = .error (.api .duplicateName) ∧
+    (solo Ex.dupName).1.bodies.length = 3 ∧ solo Ex.dupName = apiOutcome Ex.dupName :=
+  ⟨by decide +kernel, by decide +kernel, load_eq_api _⟩
+
+/-- 1''. Gravity: the description's, else the default of a fresh `Model`; whatever the outcome. -/
+theorem load_gravity (d : Desc α) :
+    (load d).1.m.gravity = d.gravity.getD (ModelS.init : ModelS α).gravity := by
+  simp only [load, loadInto]
+  rw [loadFrames_gravity]
+  cases d.gravity <;> rfl
+
+/-! ### 2. history freedom -/
+
+/-- 2. With the name map local to the call (the code as it is) the loads of a process are
+    independent: the `k`-th outcome is the outcome of loading the `k`-th file alone in a fresh
+    process, for every sequence of files. -/
+theorem load_history_free (ds : List (Desc α)) : process .perLoad ds = ds.map solo :=
+  processFrom_perLoad ds []
+
+theorem load_history_free_kth (ds : List (Desc α)) (k : Nat) :
+    (process .perLoad ds)[k]? = (ds[k]?).map solo := by
+  rw [load_history_free]; simp
+
+/-- 2'. … in particular whatever was loaded before (`hist`) does not influence the next load. -/
+theorem load_after_history (hist : List (Desc α)) (d : Desc α) :
+    (process .perLoad (hist ++ [d])).getLast? = some (solo d) := by
+  rw [load_history_free]; simp
+
+/-- 2''. With the process-wide map (the code before the fix) this is false: after a file that
+    defines "b3" as body 2, the frame "c2" of the next file — whose parent "b3" is not defined
+    there — is attached to body 2 ("c1") instead of the base. -/
+example : (process .global [Ex.earlier, Ex.dangling]).getLast?.map (fun r => r.1.lambda)
+      = some [0, 0, 1, 2] ∧
+    (solo Ex.dangling).1.lambda = [0, 0, 1, 0] ∧
+    (process .perLoad [Ex.earlier, Ex.dangling]).getLast?.map (fun r => r.1.lambda)
+      = some [0, 0, 1, 0] := by
+  decide +kernel
+
+/-! ### 3. which joint a `joint` table becomes, and that the mechanism is the one described -/
+
+/-- 3a. no `joint` field or `joint = {}`: a fixed joint -/
+theorem joint_absent : jointOf (.omitted : JointD α) = .ok fixedJoint ∧
+    jointOf (.axes [] : JointD α) = .ok fixedJoint := ⟨rfl, rfl⟩
+
+/-- 3b. one axis: `Joint(SpatialVector)`; exactly the three unit rotation axes select the
+    specialised types, a pure translation a prismatic joint, anything else a helical joint -/
+theorem joint_one (a : SV α) : jointOf (.axes [a]) = .ok (Joint.ofAxis a) ∧
+    (Joint.ofAxis a).axes = [a] ∧
+    ((a = sv6 1 0 0 0 0 0 ∧ (Joint.ofAxis a).jt = .revoluteX) ∨
+     (a = sv6 0 1 0 0 0 0 ∧ (Joint.ofAxis a).jt = .revoluteY) ∨
+     (a = sv6 0 0 1 0 0 0 ∧ (Joint.ofAxis a).jt = .revoluteZ) ∨
+     (a.w = V3.zero ∧ (Joint.ofAxis a).jt = .prismatic) ∨
+     (a.w ≠ V3.zero ∧ (Joint.ofAxis a).jt = .helical)) :=
+  ⟨rfl, rfl, ofAxis_cases a⟩
+
+/-- 3c. two to six axes: the emulated multi-DoF joint with these axes; more: rejected.  (The
+    loader does not look for Euler / translation patterns: `{z, y, x}` stays an emulated 3-DoF
+    joint.) -/
+theorem joint_many (l : List (SV α)) (h2 : 2 ≤ l.length) :
+    jointOf (.axes l) = if l.length ≤ 6 then .ok (Joint.ofAxes l) else .error .badJointDofs := by
+  rcases l with _ | ⟨a, _ | ⟨b, r⟩⟩
+  · simp at h2
+  · simp at h2
+  · rfl
+
+example : jointOf (.axes [sv6 0 0 1 0 0 0, sv6 0 1 0 0 0 0, sv6 (1 : Rat) 0 0 0 0 0]) =
+    .ok (Joint.ofAxes [sv6 0 0 1 0 0 0, sv6 0 1 0 0 0 0, sv6 1 0 0 0 0 0]) :=
+  joint_many _ (by decide)
+
+/-- 3d. the six type names; every other string is rejected (`"JointTypeEulerZXY"` too) -/
+theorem joint_named :
+    jointOf (.named "JointTypeSpherical" : JointD α) = (Joint.ofType .spherical).elim (.error .badJoint) .ok ∧
+    jointOf (.named "JointTypeEulerZYX" : JointD α) = (Joint.ofType .eulerZYX).elim (.error .badJoint) .ok ∧
+    jointOf (.named "JointTypeEulerXYZ" : JointD α) = (Joint.ofType .eulerXYZ).elim (.error .badJoint) .ok ∧
+    jointOf (.named "JointTypeEulerYXZ" : JointD α) = (Joint.ofType .eulerYXZ).elim (.error .badJoint) .ok ∧
+    jointOf (.named "JointTypeTranslationXYZ" : JointD α) =
+      (Joint.ofType .translationXYZ).elim (.error .badJoint) .ok ∧
+    jointOf (.named "JointTypeFloatingBase" : JointD α) =
+      (Joint.ofType .floatingBase).elim (.error .badJoint) .ok ∧
+    jointOf (.named "JointTypeEulerZXY" : JointD α) = .error .badJoint ∧
+    (∀ s, namedType s = none → jointOf (.named s : JointD α) = .error .badJoint) := by
+  refine ⟨rfl, rfl, rfl, rfl, rfl, rfl, rfl, ?_⟩
+  intro s hs
+  simp only [jointOf, hs]
+
+/-- 3e. One axis, mechanism: whichever of the five types was selected, after
+    `jcalc_X_lambda_S` the joint's transform is the screw about the given axis
+    (`Xrot(q, a.w) Xtrans(q a.v)`; pure translation: `Xtrans(q a.v)`) and its motion subspace
+    column is `(a.w, E_J a.v)` — which is `a` itself for all but the helical type.  So the
+    specialised types `RevoluteX/Y/Z` are the general joint about that axis. -/
+theorem one_axis_mechanism (m : ModelS α) (i k : Nat) (hi : i ≠ 0) (a : SV α) (st : QS α)
+    (hj : m.joint i = { Joint.ofAxis a with qIndex := k }) :
+    let w' := jcalcXlambdaS m (initWS m) i st
+    let XJ : XT α := if a.w = V3.zero then Xtrans (st.q k * a.v)
+                     else Xrot (st.c k) (st.s k) a.w * Xtrans (st.q k * a.v)
+    w'.X_lambda i = XJ * m.XT_ i ∧ w'.S i = ⟨a.w, XJ.E * a.v⟩ ∧
+    ((Joint.ofAxis a).jt ≠ .helical → w'.S i = a) :=
+  jcalc_ofAxis m i k hi a st hj
+
+/-- 3e'. A proper helical joint (unit rotation axis, translation along it) has the column `a`
+    as well. -/
+theorem helical_mechanism (m : ModelS α) (i k : Nat) (hi : i ≠ 0) (a : SV α) (st : QS α)
+    (hj : m.joint i = { Joint.ofAxis a with qIndex := k })
+    (hu : a.w.x * a.w.x + a.w.y * a.w.y + a.w.z * a.w.z = 1) (h : α) (hp : a.v = h * a.w) :
+    (jcalcXlambdaS m (initWS m) i st).S i = a :=
+  jcalc_ofAxis_helical m i k hi a st hj hu h hp
+
+/-- the hip of `Ex.leg` (body 3, coordinate 6) is such a joint: a `RevoluteX` -/
+example : (load Ex.leg).1.m.joint 3 = { Joint.ofAxis (sv6 1 0 0 0 0 0) with qIndex := 6 } := by
+  decide +kernel
+example (st : QS Rat) :
+    (jcalcXlambdaS (load Ex.leg).1.m (initWS (load Ex.leg).1.m) 3 st).S 3 = sv6 1 0 0 0 0 0 :=
+  (one_axis_mechanism (load Ex.leg).1.m 3 6 (by decide) (sv6 1 0 0 0 0 0) st (by decide +kernel)).2.2
+    (by decide +kernel)
+/-- a helical joint with pitch 1/2 about the unit axis (3/5, 0, 4/5) -/
+example (m : ModelS Rat) (st : QS Rat)
+    (hj : m.joint 1 = { Joint.ofAxis (⟨⟨3/5, 0, 4/5⟩, ⟨3/10, 0, 2/5⟩⟩ : SV Rat) with qIndex := 0 }) :
+    (jcalcXlambdaS m (initWS m) 1 st).S 1 = ⟨⟨3/5, 0, 4/5⟩, ⟨3/10, 0, 2/5⟩⟩ :=
+  helical_mechanism m 1 0 (by decide) _ st hj (by decide +kernel) (1/2) (by decide +kernel)
+
+/-- 3f. Two to six axes, mechanism: `AddBody` expands the joint into the chain of
+    `Joint(SpatialVector a_k)` joints through massless bodies — the joints appended to the model
+    have, in order, the types and axes of the one-axis joints (to each of which 3e applies). -/
+theorem many_axes_mechanism (m m' : ModelS α) (p : Nat) (X : XT α) (l : List (SV α)) (b : Body α)
+    (n : String) (id : Nat) (h2 : 2 ≤ l.length) (h6 : l.length ≤ 6)
+    (h : m.addBody p X (Joint.ofAxes l) b n = (m', .ok id)) :
+    m'.joints.map (fun j => (j.jt, j.axes)) =
+      m.joints.map (fun j => (j.jt, j.axes)) ++ l.map (fun a => ((Joint.ofAxis a).jt, [a])) := by
+  rw [addBody_ofAxes m p X l b n h2 h6] at h
+  split at h
+  · cases h
+  · exact addChain_joints b n l m p X m' id h
+
+/-- the knee of `Ex.leg`: bodies 4, 5, 6 are RevoluteZ, RevoluteY, RevoluteX with these axes -/
+example : (((load Ex.leg).1.m.joints.drop 4).take 3).map (fun j => (j.jt, j.axes)) =
+    [(.revoluteZ, [sv6 0 0 1 0 0 0]), (.revoluteY, [sv6 0 1 0 0 0 0]), (.revoluteX, [sv6 1 0 0 0 0 0])] := by
+  decide +kernel
+example : ((ModelS.init : ModelS Rat).addBody 0 XT.id (Joint.ofAxes [sv6 0 0 1 0 0 0, sv6 0 0 0 1 0 0])
+    ⟨1, V3.zero, M3.one, false⟩ "b").2 = .ok 2 := by decide +kernel
+
+omit [DecidableEq α] in
+/-- 3g. The named Euler / translation joints: at the zero configuration their motion subspace
+    consists of the axes their constructor stores, in order (`jcalc` code-shaped formulas). -/
+theorem named_mechanism (t : JT) (j : Joint α) (hj : Joint.ofType t = some j)
+    (ht : t = .eulerZYX ∨ t = .eulerXYZ ∨ t = .eulerYXZ ∨ t = .translationXYZ) :
+    (match t with
+     | .eulerZYX => eulerZYX_S M63.zero 1 0 1 0
+     | .eulerXYZ => eulerXYZ_S M63.zero 1 0 1 0
+     | .eulerYXZ => eulerYXZ_S M63.zero 1 0 1 0
+     | _ => translationS (M63.zero : M63 α)).cols = j.axes :=
+  named_S_zero t j hj ht
+
+example : (eulerYXZ_S (M63.zero : M63 Rat) 1 0 1 0).cols =
+    [sv6 0 1 0 0 0 0, sv6 1 0 0 0 0 0, sv6 0 0 1 0 0 0] :=
+  named_mechanism .eulerYXZ _ rfl (by decide)
+
+omit [DecidableEq α] in
+/-- 3h. defaults of `joint_frame` and `body` -/
+theorem frame_defaults (r : V3 α) (E : M3 α) :
+    frameOf (none : Option (FrameD α)) = XT.id ∧
+    frameOf (some ⟨none, none⟩ : Option (FrameD α)) = XT.id ∧
+    frameOf (some ⟨some r, none⟩) = ⟨M3.one, r⟩ ∧
+    frameOf (some ⟨none, some E⟩) = ⟨E, V3.zero⟩ ∧
+    frameOf (some ⟨some r, some E⟩) = ⟨E, r⟩ := ⟨rfl, rfl, rfl, rfl, rfl⟩
+
+omit [DecidableEq α] in
+theorem body_defaults (ms : α) (c : V3 α) (I : M3 α) :
+    bodyOf (none : Option (BodyD α)) = .ok ⟨0, V3.zero, M3.zero, false⟩ ∧
+    bodyOf (some ⟨some ms, none, none⟩) = .ok ⟨ms, V3.zero, M3.one, false⟩ ∧
+    bodyOf (some ⟨some ms, some c, none⟩) = .ok ⟨ms, c, M3.one, false⟩ ∧
+    bodyOf (some ⟨some ms, none, some I⟩) = .ok ⟨ms, V3.zero, I, false⟩ ∧
+    bodyOf (some ⟨some ms, some c, some I⟩) = .ok ⟨ms, c, I, false⟩ ∧
+    bodyOf (some ⟨none, some c, some I⟩ : Option (BodyD α)) = .error .missingValue :=
+  ⟨rfl, rfl, rfl, rfl, rfl, rfl⟩
+
+/-! ### 4. structure of the loaded model -/
+
+/-- 4a. Whatever the description and the outcome, the loader leaves a well-formed model
+    (`ModelS.WF`, property C14) — the parent ids it passes are always ids of the model.  (The
+    bound keeps the fixed-body ids inside the unsigned range.) -/
+theorem load_wf (d : Desc α) (hn : d.frames.length ≤ fixedDisc) : (load d).1.m.WF := by
+  have h := loadFrames_inv d.frames _ (inv_init d.gravity)
+    (by cases d.gravity <;> (simp only [setGravity, ModelS.init, List.length_nil]; omega))
+  exact h.wf
+
+example : (load Ex.leg).1.m.WF := load_wf Ex.leg (by decide)
+example : (load Ex.dupName).1.m.WF := load_wf Ex.dupName (by decide)
+
+/-- 4b. Ids in frame order: the `k`-th frame gets, if its joint is fixed, the fixed-body id
+    `fixedDisc + (number of fixed frames before it)`, otherwise the id of the last of all
+    movable bodies created up to and including it (`Joint.newBodies`: 1, 2 for the floating
+    base, the number of axes for an emulated joint). -/
+theorem ids_closed_form (d : Desc α) (h : (load d).2 = .ok ()) (k : Nat) (j : Joint α)
+    (hj : (jointsOf d.frames)[k]? = some j) :
+    (load d).1.ids[k]? = some
+      (if j.jt = .fixed then fixedDisc + nFixed ((jointsOf d.frames).take k)
+       else nMovable ((jointsOf d.frames).take (k + 1))) := by
+  have hpe : parseErr d = none := by
+    have h1 := load_eq_api d
+    have h2 : (apiOutcome d).2 = .ok () := by rw [← h1]; exact h
+    simp only [apiOutcome, combine] at h2
+    split at h2
+    · cases h2
+    · split at h2
+      · cases h2
+      · assumption
+  rw [load_ids d h]
+  have hc : frameIds d = idsFrom 1 0 (jointsOf d.frames) :=
+    (frameCalls_ids d.frames TState.init hpe).1
+  rw [hc, idsFrom_closed _ 1 0 k j hj]
+  split
+  · simp
+  · congr 1; omega
+
+example : (load Ex.leg).1.ids[3]? = some 6 ∧ (load Ex.leg).1.ids[2]? = some fixedDisc := by
+  have h3 := ids_closed_form Ex.leg Ex.leg_ok 3 (Joint.ofAxes [sv6 0 0 1 0 0 0, sv6 0 1 0 0 0 0, sv6 1 0 0 0 0 0])
+    (by decide +kernel)
+  have h2 := ids_closed_form Ex.leg Ex.leg_ok 2 fixedJoint (by decide +kernel)
+  exact ⟨by rw [h3]; decide +kernel, by rw [h2]; decide +kernel⟩
+
+/-- 4c. Name lookup: after a successful load `GetBodyId(name)` of every named frame — fixed
+    ones included — is the id `AddBody` returned for it; names of the description are pairwise
+    distinct (a duplicate makes the load fail). -/
+theorem name_lookup (d : Desc α) (hn : d.frames.length ≤ fixedDisc) (h : (load d).2 = .ok ())
+    (k : Nat) (f : FrameEntry α) (id : Nat) (hf : d.frames[k]? = some f)
+    (hid : (load d).1.ids[k]? = some id) (hne : f.name ≠ "") :
+    (load d).1.m.getBodyId f.name = id ∧ (id = 0 ∨ (load d).1.m.isBodyId id = true) := by
+  obtain ⟨l, hl, -, hrec⟩ := loadFrames_recorded d.frames
+    ⟨setGravity ModelS.init d.gravity, mapSet [] "ROOT" 0, []⟩ h
+  have hids : (load d).1.ids = l := by simpa [load, loadInto] using hl
+  rw [hids] at hid
+  have hmem := hrec k f id hf hid hne
+  exact C14.names_resolve _ (load_wf d hn) (f.name, id) hmem
+
+example : (load Ex.leg).1.m.getBodyId "imu" = fixedDisc ∧ (load Ex.leg).1.m.getBodyId "shank" = 6 :=
+  ⟨(name_lookup Ex.leg (by decide) Ex.leg_ok 2 _ fixedDisc rfl (by decide +kernel) (by decide)).1,
+   (name_lookup Ex.leg (by decide) Ex.leg_ok 3 _ 6 rfl (by decide +kernel) (by decide)).1⟩
+example : (load Ex.leg).1.m.getBodyId "ROOT" = 0 ∧
+    (load Ex.leg).1.m.getBodyId "nosuchbody" = 4294967295 := by decide +kernel
+
+/-- 4d. Parents and joint frames: in the model a successful load leaves behind, for the `k`-th
+    construction call `AddBody(pid, X, j, …)` (its `pid` is the id of the latest earlier frame
+    carrying the parent name, 0 for "ROOT" or a name not defined in the file — by definition of
+    `apiCalls`) and the id `id` of that frame:
+    * a one-body joint: `lambda[id]` is the movable parent of `pid` (`pid` itself, or the body a
+      fixed `pid` is merged into), `X_T[id]` is `X` composed with the fixed parent's transform,
+      and joint `id` has the type and axes of `j`;
+    * a fixed joint: the fixed body is recorded with that movable parent and transform.
+    (Chains: 3f; the first link is attached like a one-body joint.) -/
+theorem parent_of_frame (d : Desc α) (hn : d.frames.length ≤ fixedDisc) (h : (load d).2 = .ok ())
+    (hnb : (load d).1.m.bodies.length ≤ fixedDisc)
+    (k pid : Nat) (X : XT α) (j : Joint α) (b : Body α) (n : String) (id : Nat)
+    (hcall : (frameCalls TState.init d.frames).1[k]? = some (.addBody pid X j b n))
+    (hid : (frameIds d)[k]? = some id) :
+    (j.jt.kind = .single →
+      (load d).1.m.lam id = (load d).1.m.mpOf pid ∧
+      (load d).1.m.XT_ id = X * (load d).1.m.mpXOf pid ∧
+      ((load d).1.m.joint id).jt = j.jt ∧ ((load d).1.m.joint id).axes = j.axes) ∧
+    (j.jt = .fixed →
+      ((load d).1.m.fixedBody (id - fixedDisc)).movableParent = (load d).1.m.mpOf pid ∧
+      ((load d).1.m.fixedBody (id - fixedDisc)).parentTransform = (load d).1.m.fpXOf pid X) :=
+  loadFrames_parents d.frames _ TState.init (agree_init d.gravity) (inv_init d.gravity)
+    (by cases d.gravity <;> (simp only [setGravity, ModelS.init, List.length_nil]; omega))
+    h hnb k pid X j b n id hcall hid
+
+/-- the foot of `Ex.leg` (frame 4, id 7) names the fixed "imu" as parent: it hangs below the
+    thigh (3), with the IMU's transform in its joint frame; the IMU itself is merged into 3 -/
+example : (load Ex.leg).1.m.lam 7 = 3 ∧ (load Ex.leg).1.m.XT_ 7 = ⟨Ex.Ez, V3.zero⟩ ∧
+    ((load Ex.leg).1.m.fixedBody 0).movableParent = 3 := by
+  have h4 := (parent_of_frame Ex.leg (by decide) Ex.leg_ok (by decide +kernel) 4 fixedDisc XT.id
+    ⟨.eulerYXZ, [sv6 0 1 0 0 0 0, sv6 1 0 0 0 0 0, sv6 0 0 1 0 0 0], 3, 0, noCustom⟩
+    ⟨1, V3.zero, M3.one, false⟩ "foot" 7 (by decide +kernel) (by decide +kernel)).1 (by decide)
+  have h2 := (parent_of_frame Ex.leg (by decide) Ex.leg_ok (by decide +kernel) 2 3 ⟨Ex.Ez, V3.zero⟩
+    fixedJoint ⟨1/10, V3.zero, M3.one, false⟩ "imu" fixedDisc (by decide +kernel) (by decide +kernel)).2 rfl
+  refine ⟨?_, ?_, ?_⟩
+  · rw [h4.1]; decide +kernel
+  · rw [h4.2.1]; decide +kernel
+  · have := h2.1; simp only [Nat.sub_self] at this; rw [this]; decide +kernel
+
+end
+
+/-! ### 5. constraint sets -/
+section
+variable {α : Type} [Field α] [DecidableEq α] [LE α] [DecidableLE α]
+
+/-- 5a. Reading a set is issuing the translated `AddContactConstraint` / `AddLoopConstraint`
+    calls of its entries, in table order, on an empty `ConstraintSet`: whatever the outcome the
+    set left behind is the fold of the calls of the entries before the first malformed one; the
+    read succeeds iff every entry is well-formed. -/
+theorem loadSet_eq_calls (m : ModelS α) (d : Desc α) (name : String) (cs : List (ConstrD α))
+    (hs : d.csets.find? (fun p => p.1 == name) = some (name, cs)) :
+    (loadSet m d name).1 = runCs LCSet.empty (setCalls m cs) ∧
+    ((loadSet m d name).2 = .ok () ↔ ∀ c ∈ cs, ∃ l, constrCalls m c = .ok l) := by
+  simp only [loadSet, hs]
+  exact loadConstrs_eq m cs LCSet.empty
+
+omit [LE α] [DecidableLE α] in
+/-- 5b. One row of `G` and one entry of the `name` vector per call, in call order. -/
+theorem rows_and_names (C : LCSet α) (calls : List (CsCall α)) :
+    (runCs C calls).cs.size = C.cs.size + calls.length ∧
+    (runCs C calls).names = C.names ++ calls.map CsCall.name :=
+  runCs_size_names calls C
+
+omit [DecidableEq α] in
+/-- 5c. A well-formed entry is translated to `1 + k` calls of one kind with common arguments —
+    a contact entry: one per normal (`normal_sets` wins over `normal`) on the named body at
+    `point` (default 0); a loop entry: one per axis between the named bodies with the given
+    frames (default identity) and stabilisation — all carrying the entry's `name`. -/
+theorem entry_calls (m : ModelS α) (c : ConstrD α) (calls : List (CsCall α))
+    (h : constrCalls m c = .ok calls) :
+    (∃ e : Entry α, calls = e.calls) ∧ ∀ x ∈ calls, x.name = c.name :=
+  constrCalls_entry m c calls h
+
+omit [LE α] [DecidableLE α] in
+/-- 5d. Grouping: an entry that does not continue the last group of its type becomes ONE group
+    holding its normals / axes in table order, at the next free row, with the body ids, frames,
+    user id (and, for loops, the stabilisation flag and `1 / stabilization_parameter`) of the
+    entry. -/
+theorem entry_group (C : LCSet α) (e : Entry α) (hf : e.Fresh C.cs) :
+    (runCs C e.calls).cs = ⟨C.cs.cs ++ [e.group C.cs.size], C.cs.size + e.rows⟩ :=
+  entry_run C e hf
+
+omit [LE α] [DecidableLE α] in
+/-- 5e. Table order, groups: if no entry continues the group of the entry before it (the only
+    group an entry can continue, see `Entry.Fresh`: same body / point / id *and* rows ending at
+    `size`), the set consists of one group per entry, in table order, each starting at the row
+    where the previous one ends.  (Rows without any hypothesis: 5f.) -/
+theorem set_in_table_order (es : List (Entry α)) (C : LCSet α) (hf : FreshSeq C.cs es) :
+    (runCs C (es.flatMap Entry.calls)).cs =
+      ⟨C.cs.cs ++ groupsFrom C.cs.size es, C.cs.size + (es.map Entry.rows).sum⟩ :=
+  entries_in_order es C hf
+
+end
+
+/-- the set "stance" of `Ex.leg`: three well-formed entries, 3 + 2 + 1 rows, names per row … -/
+example : (loadWithSet Ex.leg "stance").2.2 = .ok () ∧
+    (loadWithSet Ex.leg "stance").2.1.cs.size = 6 ∧
+    (loadWithSet Ex.leg "stance").2.1.names = ["heel", "heel", "heel", "strut", "strut", ""] ∧
+    (loadWithSet Ex.leg "stance").2.1.cs.cs.map (fun c => (c.ctype, c.row, c.T.length, c.bodyP, c.bodyS))
+      = [(.contact, 0, 3, 7, 0), (.loop, 3, 2, 3, 7), (.contact, 5, 1, 7, 0)] ∧
+    (loadWithSet Ex.leg "stance").2.1.cs.cs.map (fun c => (c.userId, c.baumgarte, c.bgA))
+      = [(7, false, 10), (noUserId, true, 5), (noUserId, false, 10)] := by
+  decide +kernel
+example : (loadSet (load Ex.leg).1.m Ex.leg "stance").1 =
+      runCs LCSet.empty (setCalls (load Ex.leg).1.m (Ex.leg.csets.headD ("", [])).2) :=
+  (loadSet_eq_calls (load Ex.leg).1.m Ex.leg "stance" _ rfl).1
+/-- … and its three entries are `Entry`s that do not continue one another (5e applies) -/
+example : FreshSeq (CSet.empty : CSet Rat)
+    [.contact 7 ⟨1/10, 0, 0⟩ ⟨1, 0, 0⟩ [⟨0, 1, 0⟩, ⟨0, 0, 1⟩] "heel" 7,
+     .loop 3 7 ⟨M3.one, ⟨0, 0, 1⟩⟩ XT.id (sv6 0 0 0 1 0 0) [sv6 0 0 0 0 1 0] true (1/5) "strut" noUserId,
+     .contact 7 V3.zero ⟨0, 0, 1⟩ [] "" noUserId] := by
+  decide +kernel
+example : (LCSet.empty : LCSet Rat).cs.lastOf .contact = none ∧
+    Entry.Fresh (LCSet.empty : LCSet Rat).cs (.contact 7 ⟨1/10, 0, 0⟩ ⟨1, 0, 0⟩ [⟨0, 1, 0⟩] "heel" 7) := by
+  decide +kernel
+
+/-- 5f. Unconditionally (with the repaired grouping rule of `AddContactConstraint` /
+    `AddLoopConstraint`: a call is merged only into a group whose rows are the last rows of the
+    system): whatever the entries — continuing the previous group or not — the rows of the system
+    are one row per call, in table order (`axesOf` lists type and axis of every row; the set stays
+    contiguous, `L09.Contig`, so its `i`-th element is row `i` of `G`), and `size` is their number. -/
+theorem rows_in_table_order {α : Type} [Field α] [DecidableEq α] (calls : List (CsCall α)) :
+    axesOf (runCs LCSet.empty calls).cs = calls.map callRow ∧
+    L09.Inv (runCs LCSet.empty calls).cs ∧ L09.Contig (runCs LCSet.empty calls).cs := by
+  have h := rows_in_order calls LCSet.empty L09.inv_empty L09.contig_empty
+  simpa [axesOf, LCSet.empty, CSet.empty] using h
+
+/-- a contact entry equal to an earlier one *across* a loop entry is no longer appended to the
+    earlier group (before the repair: groups (contact, row 0, 2 normals), (loop, row 1) with
+    overlapping rows): three groups at rows 0, 1, 2, rows in call order -/
+example : ((runCs (LCSet.empty : LCSet Rat)
+      [.addContact 2 V3.zero ⟨1, 0, 0⟩ "" noUserId,
+       .addLoop 2 3 XT.id XT.id (sv6 0 0 0 0 0 1) false (1/10) "" noUserId,
+       .addContact 2 V3.zero ⟨0, 1, 0⟩ "" noUserId]).cs.cs.map (fun c => (c.ctype, c.row, c.T.length)))
+    = [(.contact, 0, 1), (.loop, 1, 1), (.contact, 2, 1)] := by decide +kernel
+/-- adjacent equal contact entries still share a group (5e's hypothesis excludes exactly this) -/
+example : ((runCs (LCSet.empty : LCSet Rat)
+      [.addContact 2 V3.zero ⟨1, 0, 0⟩ "a" noUserId,
+       .addContact 2 V3.zero ⟨0, 1, 0⟩ "b" noUserId]).cs.cs.map (fun c => (c.ctype, c.row, c.T.length)))
+    = [(.contact, 0, 2)] := by decide +kernel
+
 end Rbdl.C19
